@@ -1,4 +1,4 @@
-import TenpyModel.C10.ExtProofsB
+import TenpyModel.C10.ExtProofsG
 /-!
 # C10 — property theorems of the extension round
 
@@ -96,3 +96,230 @@ theorem C10_build_MPO_denote {α Q : Type} [Semiring α] [Add Q] [Sub Q] [Zero Q
     have := coeff_pathsFrom_zero Key.IdR g.layers g.orderedStates hlen hok (by rw [hst]; exact hnot)
       Key.IdL (by rw [hst]; simpa using mem_of_keyIdx hl0) t
     simpa [denoteGraph] using this.symm
+
+/-! ## the MPO methods that only change the representation -/
+
+/-- **Shape of a built MPO.**  A successful `build_MPO` on a well-formed graph returns `L` rectangular grids and index
+lists `IdL`, `IdR` with `L + 1` entries (what `MPO.test_sanity` demands). -/
+theorem C10_build_MPO_wf {α Q : Type} [Monoid α] [Add Q] [Sub Q] [Zero Q] [DecidableEq Q] {g : Graph α}
+    (h : GWF g) (cd : ChargeData Q) (ucw : Nat) (m : GMPO α Q) (hb : buildMPO g cd ucw = .ok m) : m.WF := by
+  obtain ⟨grids, legs, hgr, _, hg1, hg2, hg3, _, _, _, _⟩ := buildMPO_ok hb
+  have hgrids : grids = gridsOf g.layers g.orderedStates := by
+    unfold buildGrids at hgr
+    split at hgr
+    · cases hgr; rfl
+    · cases hgr
+  have hlen : g.orderedStates.length = g.layers.length + 1 := by
+    rw [orderedStates_length, h.nStates, h.nLayers]
+  have hL : m.L = g.layers.length := by
+    rw [GMPO.L, hg1, hgrids, gridsOf_length _ _ hlen]
+  exact ⟨by rw [hg2, List.length_map, hL, hlen], by rw [hg3, List.length_map, hL, hlen],
+    by rw [hg1, hgrids]; exact gridsOf_rect _ _⟩
+
+/-- **`group_sites` keeps the operator.**  For every MPO (rectangular grids, `L + 1` entries in `IdL` / `IdR`) and
+every `n ≥ 1`, the grouped MPO — per group the ordered product of its `W`s, `IdL` / `IdR` taken at the group
+boundaries, a shorter last group when `n` does not divide `L` — denotes the same formal sum: the list of its summands
+is a permutation of the original one (operator strings of a group concatenated). -/
+theorem C10_group_sites_denote {α Q : Type} [Monoid α] (m m' : GMPO α Q) (hm : m.WF) (n : Nat)
+    (h : groupSites m n = .ok m') : m'.denote.Perm m.denote :=
+  groupSites_denote m m' hm n h
+
+/-- `group_sites(0)` is rejected, every `n ≥ 1` is accepted. -/
+theorem C10_group_sites_guard {α Q : Type} [Mul α] (m : GMPO α Q) (n : Nat) :
+    (∃ m', groupSites m n = .ok m') ↔ n ≠ 0 := by
+  unfold groupSites
+  by_cases h : n = 0
+  · simp [h]
+  · simp [h]
+
+/-- **Graph → MPO → grouped MPO.**  `build_MPO` followed by `group_sites(n)` still denotes the path sum of the
+graph (finite chain). -/
+theorem C10_build_group_denote {α Q : Type} [Semiring α] [Add Q] [Sub Q] [Zero Q] [DecidableEq Q] {g : Graph α}
+    (h : GWF g) (cd : ChargeData Q) (ucw : Nat) (m m' : GMPO α Q) (hb : buildMPO g cd ucw = .ok m) (n : Nat)
+    (hg : groupSites m n = .ok m') : Sym.Equiv m'.denote (denoteGraph g) :=
+  (Sym.Equiv.of_perm (groupSites_denote m m' (C10_build_MPO_wf h cd ucw m hb) n hg)).trans
+    (C10_build_MPO_denote h cd ucw m hb)
+
+/-- **`enlarge_mps_unit_cell` keeps the operator.**  `k` unit cells of the enlarged MPO are `k · factor` unit cells of
+the original one: identical lists of summands. -/
+theorem C10_enlarge_denote {α Q : Type} [Mul α] [One α] (m m' : GMPO α Q) (hm : m.WF) (num : Int) (den : Nat)
+    (h : enlargeUnitCell m num den = .ok m') (k : Nat) :
+    m'.denoteWindow k = m.denoteWindow (k * num.toNat) :=
+  enlarge_denoteWindow m m' hm num den h k
+
+/-- `enlarge_mps_unit_cell(factor)` succeeds exactly for an integer `factor ≥ 2` on an infinite MPO (the three
+`ValueError`s of the implementation). -/
+theorem C10_enlarge_guard {α Q : Type} (m : GMPO α Q) (num : Int) (den : Nat) :
+    (∃ m', enlargeUnitCell m num den = .ok m') ↔ (den = 1 ∧ 2 ≤ num ∧ m.bc = Bc.infinite) := by
+  unfold enlargeUnitCell GMPO.isFinite
+  by_cases h1 : den = 1
+  · by_cases h2 : num ≤ 1
+    · simp [h1, h2]; omega
+    · by_cases h3 : m.bc = Bc.infinite
+      · simp [h1, h2, h3]; omega
+      · simp [h1, h2, h3]
+  · simp [h1]
+
+/-- **`extract_segment` of whole unit cells.**  The segment `[0, k·L - 1]` of an MPO, when `extract_segment` accepts
+the bounds, denotes the window of `k` unit cells: all terms lying completely inside, with `IdL` on the left and `IdR` on
+the right end. -/
+theorem C10_extract_segment_window {α Q : Type} [Mul α] [One α] [DecidableEq Q] (m m' : GMPO α Q) (hm : m.WF) (k : Nat)
+    (hk : 0 < k) (hL : 0 < m.L) (h : extractSegment m 0 ((k * m.L - 1 : Nat) : Int) = .ok m') :
+    m'.denote = m.denoteWindow k :=
+  extractSegment_window m m' hm k hk hL h
+
+/-- **`sort_legcharges` keeps the operator.**  Sorting every virtual leg by charge (any order `lt`, the permutation is
+the stable sort of the flat charge list), permuting rows and columns of every grid accordingly and moving the
+`IdL` / `IdR` indices to their new positions leaves the list of summands unchanged up to a permutation. -/
+theorem C10_sort_legcharges_denote {α Q : Type} [Monoid α] (m m' : GMPO α Q) (hm : m.Shaped) (lt : Q → Q → Bool)
+    (h : sortLegcharges m lt = .ok m') : m'.denote.Perm m.denote :=
+  sortLegcharges_denote m m' hm lt h
+
+/-- the permutation used by `sort_legcharges` is a permutation of the indices of the leg -/
+theorem C10_sort_perm {Q : Type} (lt : Q → Q → Bool) (leg : List Q) :
+    (sortPerm lt leg).Perm (List.range leg.length) :=
+  sortPerm_perm lt leg
+
+/-! ## charges of the virtual legs -/
+
+/-- **`_calc_legcharges` finds the consistent charges.**  Suppose the graph admits a consistent assignment `c` of
+charges to its states at all: `IdL` on the first bond neutral, the charge rule
+`c(i+1, keyR) = c(i, keyL) - Ws_qtotal[i] + qtotal(op)` on every edge and, for infinite boundary conditions, equal
+states and charges on the first and the last bond.  Then whenever `_calc_legcharges` returns, the charge it gives to
+*every* state of *every* bond — found by `travel_q_LR` from `IdL`, copied around the unit cell, or solved from the
+right by `travel_q_RL` — is the one of `c` (compared through any map `π` respecting `+`, `-`, `0` and `make_valid`,
+e.g. reduction modulo `N` for `Z_N` charges).  In particular the result does not depend on the order in which the
+stack visits the states. -/
+theorem C10_legcharges_consistent {α Q Q' : Type} [Add Q] [Sub Q] [Zero Q] [AddCommGroup Q'] (g : Graph α)
+    (cd : ChargeData Q) (π : Q → Q') (c : Nat → Key → Q') (hπ : ChargeHom π cd)
+    (hc : Consistent π g.L g.infinite g.layers g.orderedStates cd c) (legs : List (List Q))
+    (h : legcharges g cd = .ok legs) :
+    ∀ (b idx : Nat) (q : Q) (key : Key), (legs.getD b [])[idx]? = some q →
+      (g.orderedStates.getD b [])[idx]? = some key → π q = c b key :=
+  legcharges_agree g cd π c hπ hc legs h
+
+/-- **Charge rule of the built `W` tensors.**  Under the hypotheses of `C10_legcharges_consistent`, every edge
+`(keyL, keyR, op)` of site `i` sits in a block of `W_i` that satisfies the charge rule
+`q_left - q_right + qtotal(op) - Ws_qtotal[i] = 0` with the leg charges returned: what `npc.grid_outer` needs to accept
+the grid. -/
+theorem C10_legcharges_rule {α Q Q' : Type} [Add Q] [Sub Q] [Zero Q] [AddCommGroup Q'] (g : Graph α)
+    (cd : ChargeData Q) (π : Q → Q') (c : Nat → Key → Q') (hπ : ChargeHom π cd)
+    (hc : Consistent π g.L g.infinite g.layers g.orderedStates cd c) (legs : List (List Q))
+    (h : legcharges g cd = .ok legs) (i : Nat) (e : Edge Key α) (he : e ∈ g.layers.getD i []) (a b : Nat) (qa qb : Q)
+    (ha : keyIdx (g.orderedStates.getD i []) e.kL = some a) (hb : keyIdx (g.orderedStates.getD (i + 1) []) e.kR = some b)
+    (hqa : (legs.getD i [])[a]? = some qa) (hqb : (legs.getD (i + 1) [])[b]? = some qb) :
+    π (qa - qb + cd.qop i e.op - cd.wq i) = 0 := by
+  have h1 := legcharges_agree g cd π c hπ hc legs h i a qa e.kL hqa (keyIdx_getElem? ha)
+  have h2 := legcharges_agree g cd π c hπ hc legs h (i + 1) b qb e.kR hqb (keyIdx_getElem? hb)
+  rw [hπ.sub, hπ.add, hπ.sub, h1, h2, hc.edge i e he]
+  abel
+
+/-! ## non-vacuity: concrete instances of the hypotheses and conclusions -/
+section examples
+
+/-- finite chain of 3 sites: `2·Z₀ + 3·Sp₀ Sm₂ + 5·Sm₀ Sp₁` assembled with `add` (a repeated string edge is skipped) -/
+def extCalls : List (Int × Key × Key × String × Int × Bool) :=
+  [(0, Key.IdL, Key.IdR, "Z", 2, false),
+   (0, Key.IdL, .tup [.n 0, .s "a"], "Sp", 1, false), (1, .tup [.n 0, .s "a"], .tup [.n 0, .s "a"], "Id", 1, true),
+   (1, .tup [.n 0, .s "a"], .tup [.n 0, .s "a"], "Id", 1, true),
+   (2, .tup [.n 0, .s "a"], Key.IdR, "Sm", 3, false),
+   (0, Key.IdL, .tup [.n 1, .s "b"], "Sm", 1, false), (1, .tup [.n 1, .s "b"], Key.IdR, "Sp", 5, false)]
+
+def extG : Graph Int :=
+  (extCalls.foldl (fun g c => g.add c.1 c.2.1 c.2.2.1 c.2.2.2.1 c.2.2.2.2.1 c.2.2.2.2.2)
+    (Graph.empty 3 false)).addMissingIdLIdR true
+
+/-- one U(1) charge: `Sp` raises it, `Sm` lowers it -/
+def extCd : ChargeData Int :=
+  ⟨fun _ _ => true, fun _ n => if n = "Sp" then 1 else if n = "Sm" then -1 else 0, fun _ => 0, id, fun a b => a < b⟩
+
+theorem extG_wf : GWF extG := C10_graph_add_wf 3 false extCalls (some true)
+
+-- the graph has 4 states on the bond (0, 1), charges 0, +1, -1, 0 in the order IdL, (0,a), (1,b), IdR
+example : extG.orderedStates.map List.length = [2, 4, 3, 2] := by decide
+example : legcharges extG extCd = .ok [[0, 0], [0, 1, -1, 0], [0, 1, 0], [0, 0]] := by decide
+example : (buildGrids extG).toOption.map (fun gr => gr.map (fun G => (G.length, (G.headD []).length))) =
+    some [(2, 4), (4, 3), (3, 2)] := by decide
+
+def extM : GMPO Int Int := (buildMPO extG extCd 3).toOption.getD ⟨.finite, [], [], [], [], .unknown, 1, 1⟩
+
+example : (buildMPO extG extCd 3).toOption.isSome = true := by decide
+example : (extM.idL, extM.idR) = ([some 0, some 0, some 0, some 0], [some 1, some 3, some 2, some 1]) := by decide
+-- `C10_build_MPO_denote` on this instance: both sides are the three terms
+example : canon 0 extM.denote = [([(0, "Sm"), (1, "Sp")], 5), ([(0, "Sp"), (2, "Sm")], 3), ([(0, "Z")], 2)] := by decide
+example : canon 0 (denoteGraph extG) = [([(0, "Sm"), (1, "Sp")], 5), ([(0, "Sp"), (2, "Sm")], 3), ([(0, "Z")], 2)] := by
+  decide
+
+-- `group_sites(2)`: two grouped sites (2 + 1), same three terms
+def extM2 : GMPO Int Int := (groupSites extM 2).toOption.getD extM
+example : (groupSites extM 2).toOption.isSome = true := by decide
+example : (extM2.L, extM2.idL, extM2.idR) = (2, [some 0, some 0, some 0], [some 1, some 2, some 1]) := by decide
+example : canon 0 extM2.denote = [([(0, "Sm"), (1, "Sp")], 5), ([(0, "Sp"), (2, "Sm")], 3), ([(0, "Z")], 2)] := by decide
+example : (groupSites extM 0).toOption.isNone = true := by decide
+
+-- `sort_legcharges`: the leg with charges [0, 1, -1, 0] is permuted to [-1, 0, 0, 1], IdL moves from 0 to 1
+example : sortPerm extCd.lt [0, 1, -1, 0] = [2, 0, 3, 1] := by decide
+def extMs : GMPO Int Int := (sortLegcharges extM extCd.lt).toOption.getD extM
+example : (sortLegcharges extM extCd.lt).toOption.isSome = true := by decide
+example : (extMs.idL, extMs.idR, extMs.legs) =
+    ([some 0, some 1, some 0, some 0], [some 1, some 2, some 1, some 1], [[0, 0], [-1, 0, 0, 1], [0, 0, 1], [0, 0]]) := by
+  decide
+example : canon 0 extMs.denote = [([(0, "Sm"), (1, "Sp")], 5), ([(0, "Sp"), (2, "Sm")], 3), ([(0, "Z")], 2)] := by decide
+
+/-- infinite unit cell of 2 sites: `3·Sp₀ Sm₁ + 2·Z₁` -/
+def extGi : Graph Int :=
+  ([((0 : Int), Key.IdL, Key.tup [.n 0, .s "a"], "Sp", (1 : Int), false), (1, .tup [.n 0, .s "a"], Key.IdR, "Sm", 3, false),
+    (1, Key.IdL, Key.IdR, "Z", 2, false)].foldl
+    (fun g c => g.add c.1 c.2.1 c.2.2.1 c.2.2.2.1 c.2.2.2.2.1 c.2.2.2.2.2) (Graph.empty 2 true)).addMissingIdLIdR true
+
+def extMi : GMPO Int Int := (buildMPO extGi extCd 2).toOption.getD ⟨.finite, [], [], [], [], .unknown, 1, 1⟩
+
+example : (buildMPO extGi extCd 2).toOption.isSome = true := by decide
+example : extMi.bc = Bc.infinite := by decide
+-- `enlarge_mps_unit_cell(2)`: one enlarged cell = two original cells; a finite MPO, factor 1 and factor 3/2 are rejected
+def extMe : GMPO Int Int := (enlargeUnitCell extMi 2 1).toOption.getD extMi
+example : (enlargeUnitCell extMi 2 1).toOption.isSome = true := by decide
+example : (extMe.L, extMe.ucw) = (4, 4) := by decide
+example : canon 0 (extMe.denoteWindow 1) = canon 0 (extMi.denoteWindow 2) := by decide
+example : canon 0 (extMi.denoteWindow 2) =
+    [([(0, "Sp"), (1, "Sm")], 3), ([(1, "Z")], 2), ([(2, "Sp"), (3, "Sm")], 3), ([(3, "Z")], 2)] := by decide
+example : (enlargeUnitCell extM 2 1).toOption.isNone = true ∧ (enlargeUnitCell extMi 1 1).toOption.isNone = true ∧
+    (enlargeUnitCell extMi 3 2).toOption.isNone = true := by decide
+-- `extract_segment(0, 3)`: two unit cells, bc 'segment'
+def extMseg : GMPO Int Int := (extractSegment extMi 0 ((2 * extMi.L - 1 : Nat) : Int)).toOption.getD extMi
+example : (extractSegment extMi 0 ((2 * extMi.L - 1 : Nat) : Int)).toOption.isSome = true := by decide
+example : (extMseg.bc, extMseg.L, extMseg.ucw) = (Bc.segment, 4, 4) := by decide
+example : canon 0 extMseg.denote = canon 0 (extMi.denoteWindow 2) := by decide
+-- sites_per_ring = L // unit_cell_width = 0 after group_sites: ZeroDivisionError (known finding)
+example : ((groupSites extMi 2).toOption.map (fun m => (extractSegment m 0 0).toOption.isNone)) = some true := by decide
+
+/-- the consistent charge assignment of `extG` -/
+def extC : Nat → Key → Int
+  | 1, .tup [.n 0, .s "a"] => 1
+  | 2, .tup [.n 0, .s "a"] => 1
+  | 1, .tup [.n 1, .s "b"] => -1
+  | _, _ => 0
+
+example : ChargeHom (id : Int → Int) extCd := ⟨fun _ _ => rfl, fun _ _ => rfl, rfl, fun _ => rfl⟩
+
+example : Consistent (id : Int → Int) extG.L extG.infinite extG.layers extG.orderedStates extCd extC := by
+  have hinf : extG.infinite = false := by decide
+  refine ⟨rfl, ?_, fun h => by rw [hinf] at h; cases h⟩
+  intro i e he
+  match i with
+  | 0 =>
+    have : ∀ e ∈ extG.layers.getD 0 [], extC 1 e.kR = extC 0 e.kL - id (extCd.wq 0) + id (extCd.qop 0 e.op) := by decide
+    exact this e he
+  | 1 =>
+    have : ∀ e ∈ extG.layers.getD 1 [], extC 2 e.kR = extC 1 e.kL - id (extCd.wq 1) + id (extCd.qop 1 e.op) := by decide
+    exact this e he
+  | 2 =>
+    have : ∀ e ∈ extG.layers.getD 2 [], extC 3 e.kR = extC 2 e.kL - id (extCd.wq 2) + id (extCd.qop 2 e.op) := by decide
+    exact this e he
+  | n + 3 =>
+    have : extG.layers.getD (n + 3) [] = [] := by
+      have h3 : extG.layers.length = 3 := by decide
+      rw [List.getD_eq_getElem?_getD, List.getElem?_eq_none (by omega)]; rfl
+    rw [this] at he; cases he
+
+end examples
